@@ -214,12 +214,12 @@ Proof.
   assert (F : k = 0%Z).
   { destruct (Z.eq_dec k 0) as [|N]; [assumption|exfalso].
     destruct (Z_lt_le_dec k 0) as [L|G].
-    - assert (A : zq k <= zq (-1)) by (apply zq_le; lia).
+    - assert (A : zq k <= zq (-1)) by (apply (proj1 (zq_le _ _)); lia).
       apply (Qcmult_le_compat_r _ _ m) in A; [|apply Qclt_le_weak; exact Hm].
       replace (zq (-1)) with (- (1)) in A by (apply Qc_is_canon; reflexivity).
       replace (- (1) * m) with (- m) in A by ring.
       replace (zq k * m) with (m * zq k) in A by ring. qc_lra.
-    - assert (A : zq 1 <= zq k) by (apply zq_le; lia). rewrite zq_1 in A.
+    - assert (A : zq 1 <= zq k) by (apply (proj1 (zq_le _ _)); lia). rewrite zq_1 in A.
       apply (Qcmult_le_compat_r _ _ m) in A; [|apply Qclt_le_weak; exact Hm].
       replace (1 * m) with m in A by ring.
       replace (zq k * m) with (m * zq k) in A by ring. qc_lra. }
